@@ -269,7 +269,8 @@ func (s *ASpec) build() (*core.Spec, error) {
 						// the "json" pattern syntax: a pattern is JSON text, or (from a Go program / a YAML document)
 						// a native value with whole numbers as ints - Compile makes plain JSON data of either
 						npat++
-						if npat%2 == 0 {
+						if _, isText := b.Pattern.(string); isText || npat%2 == 0 {
+							// (a pattern that is a string can only be given as JSON text: a native string is read as text)
 							br.Pattern = jsText(b.Pattern)
 						} else {
 							br.Pattern = nativeInts(br.Pattern)
